@@ -83,6 +83,43 @@ def ret_exprs(b, eb):
     return out
 
 
+def _vars(e, out, depth=0):
+    if depth > 60 or not isinstance(e, (tuple, list)):
+        return
+    if isinstance(e, tuple) and e and e[0] == "var":
+        out.add(e[1])
+        return
+    for x in e:
+        if isinstance(x, (tuple, list)):
+            _vars(x, out, depth + 1)
+
+
+def _calls(e, out, depth=0):
+    if depth > 60 or not isinstance(e, (tuple, list)):
+        return
+    if isinstance(e, tuple) and e and e[0] == "call" and isinstance(e[1], str):
+        out.add(e[1].split("::")[-1])
+    for x in e:
+        if isinstance(x, (tuple, list)):
+            _calls(x, out, depth + 1)
+
+
+def only_from_params(b, rets):
+    """every returned expression mentions only the function's parameters (no local that was computed from them by a call:
+    `let ch = if page == 1 { ch.to_ascii_uppercase() } else { ch }` makes the two directions disagree) and calls nothing but
+    the map lookup"""
+    bad = []
+    for e in rets:
+        vs, cs = set(), set()
+        _vars(e, vs)
+        _calls(e, cs)
+        if any(l > b.argc for l in vs):
+            bad.append("uses a derived local: %s" % show(e)[:80])
+        elif cs - {"get", "deref", "from", "into", "index", "clone", "from_u32", "unwrap", "from_u32_unchecked", "contains_key"}:
+            bad.append("calls %s: %s" % (sorted(cs - {"get", "deref"}), show(e)[:80]))
+    return bad
+
+
 def run(chk):
     f = F.load()
     chk.rules = ["R-TABLE-INJ", "R-CONV-SHAPE", "R-FLAG-ACCESS", "R-CODEC-FLOW"]
@@ -146,14 +183,16 @@ def run(chk):
                 shape_ok = False
                 continue
             eb = ExprBuilder(mb)
-            rets = [show(e) for e in ret_exprs(mb, eb)]
+            rexp = ret_exprs(mb, eb)
+            rets = [show(e) for e in rexp]
+            derived = only_from_params(mb, rexp)
             joined = " | ".join(rets)
             has_lookup = any("get(" in r and want in r and "as Some" in r for r in rets)
             has_ident = any(r in ("ch", "attributed_char.ch") for r in rets)
             extra = [r for r in rets if not ("get(" in r and want in r) and r not in ("ch", "attributed_char.ch")]
             if name in ("viewdata", "mode7") and meth == "convert_from_unicode":
                 extra = [r for r in extra if r != "32"]
-            ok = has_lookup and has_ident and not extra
+            ok = has_lookup and has_ident and not extra and not derived
             chk.obligation(ok)
             if not ok:
                 shape_ok = False
@@ -220,12 +259,14 @@ def run(chk):
             if not chk.anchor(mb is not None, "R-CONV-SHAPE", "anchor missing: petscii converter"):
                 continue
             eb = ExprBuilder(mb)
-            rets = [show(e) for e in ret_exprs(mb, eb)]
-            ok = any("get(" in r and want in r for r in rets) and any(r in ("ch", "ch.ch") for r in rets) and len(rets) == 2
+            rexp = ret_exprs(mb, eb)
+            rets = [show(e) for e in rexp]
+            derived = only_from_params(mb, rexp)
+            ok = any("get(" in r and want in r for r in rets) and any(r in ("ch", "ch.ch") for r in rets) and len(rets) == 2 and not derived
             chk.obligation(ok)
             if not ok:
                 chk.finding("petscii::%s|shape" % mb.name, rule="R-CONV-SHAPE", where="%s:%s" % (mb.file, mb.line), fn=mb.short(),
-                            what="converter is not `lookup in %s, else identity`: %s" % (want, rets))
+                            what="converter is not `lookup in %s, else identity` of its own argument: %s %s" % (want, rets, "; ".join(derived)))
         for chs in ALNUM:
             ch = ord(chs)
             code = U2P.get(ch & 0xFF, ch)
